@@ -77,7 +77,8 @@ def history(s, hidx):
     if rng.random() < 0.15:
         return      # a history that never ends
     # the roDelete may be addressed to another running-order ID: it completes this one all the same
-    msg = B.msg_doc('roDelete', 400, ro_id=('RO' if rng.random() < 0.7 else 'ANOTHER RO'), pretty=rng.random() < 0.5)
+    env_ = {'mos_id': None, 'ncs_id': 'NCS'} if rng.random() < 0.3 else {}      # the roDelete envelope may lack <mosID>
+    msg = B.msg_doc('roDelete', 400, ro_id=('RO' if rng.random() < 0.7 else 'ANOTHER RO'), pretty=rng.random() < 0.5, **env_)
     ro, err, v, ev = s.step(ro, msg, {'history': hidx, 'phase': 'roDelete'})
     if ev is not None and ev.get('post_xml'):
         cur = ev['post_xml']
@@ -106,9 +107,23 @@ def collection_history(s, cidx):
         docs.append(gen.rand_message(rng, state, K.weighted_kinds(rng, K.kind_weights(1, 1, 0.3, 0)),
                                      60 + k, ids, pool=pool))
     rng.shuffle(docs)
+    # before any merge: the collection holds a roDelete but its running order has not received it
+    mc0, e0 = K.make_collection(s, docs, 'strings', False)
+    if mc0 is not None:
+        s.evaluations += 1
+        s.note_sig(('collection-completed-before-merge', bool(mc0.completed)))
+        if bool(mc0.completed) != bool(Abs(str(mc0)).completed):
+            s.custom_violation('collection-reports-completed-before-the-roDelete-was-merged',
+                               {'mc.completed': bool(mc0.completed)}, {'type': 'collection', 'docs': docs, 'strict': True},
+                               status='before-merge')
     for strict in (True, False):
         mc, cerr, merr, wl = K.collection_merge(s, docs, strict, allow_incomplete=False,
                                                 ctx={'collection': cidx, 'strict': strict})
+        if mc is not None and bool(mc.completed) != bool(Abs(str(mc)).completed):
+            s.custom_violation('collection-completed-flag-disagrees-with-its-running-order',
+                               {'mc.completed': bool(mc.completed), 'strict': strict,
+                                'merge_exc': type(merr).__name__ if merr else None},
+                               {'type': 'collection', 'docs': docs, 'strict': strict}, status='after-merge')
         if mc is None:
             s.hist['collection_rejected'] += 1
             continue
